@@ -2,9 +2,10 @@ INIT Init
 NEXT Next
 CONSTANTS
   MaxEntries = 2
-  Coefs = {1, 3}
+  Coefs = {1, 2, 3}
 INVARIANT AllPositiveFractions
 INVARIANT SumIsTotal
 INVARIANT Proportional
+INVARIANT HasEqualProducts
 INVARIANT Emit
 CHECK_DEADLOCK FALSE
